@@ -6,6 +6,7 @@ import SignaloModel.Proofs.DequeSuffix
 import SignaloModel.Proofs.DequeExact
 import SignaloModel.Proofs.DequeCount
 import SignaloModel.Proofs.DequeCountMin
+import SignaloModel.Proofs.DequeCountBounds
 /-!
 # C19 — Windowed filters drop every owned sample exactly once
 
@@ -14,6 +15,7 @@ The property theorems for C19: `#check` prints each statement, `#print axioms` i
 -/
 open SignaloModel
 
+#check @SignaloModel.Registry.owned_bounds_registry_count
 #check @SignaloModel.Registry.owned_min_registry_count
 #check @SignaloModel.Registry.owned_max_registry_count
 #check @SignaloModel.Deque.taps_count_run
@@ -35,6 +37,7 @@ open SignaloModel
 #check @Registry.owned_median_registry
 #check @Registry.run_append
 
+#print axioms SignaloModel.Registry.owned_bounds_registry_count
 #print axioms SignaloModel.Registry.owned_min_registry_count
 #print axioms SignaloModel.Registry.owned_max_registry_count
 #print axioms SignaloModel.Deque.taps_count_run
